@@ -608,6 +608,13 @@ def main():
             !is_separated""")
         if re.sub(r"\s+", "", body) != want:
             raise ValueError("is_edge_inside: unexpected shape")
+        tbody = find_fn(flood[flood.index("impl<S> DistanceMetric<S> for RectangleMetric<S>"):], "is_point_inside")[1]
+        want_t = re.sub(r"\s+", "", "!self.is_empty() && RectangleMetric::is_point_inside(self, point)")
+        if re.sub(r"\s+", "", tbody) != want_t:
+            raise ValueError("DistanceMetric::is_point_inside for RectangleMetric: unexpected shape")
+        w("/-- `<RectangleMetric as DistanceMetric>::is_point_inside`: what the vertex iterator asks -/")
+        w("def rect_metric_point_inside (lower upper point : Pt) : Bool :=")
+        w("  !(rect_is_empty lower upper) && rect_is_point_inside lower upper point")
         w("/-- `RectangleMetric::is_edge_inside` (statement-level transliteration; the corners are the first")
         w("    points of `edges()`: lower, (lower.x, upper.y), upper, (upper.x, lower.y)) -/")
         w("def rect_is_edge_inside (lower upper from_ to_ : Pt) : Bool :=")
